@@ -1,7 +1,7 @@
 use crate::decoder::decode;
 use crate::decoder::ops::{Op, Register8, Register16, IndirectLocation, JumpCondition};
 use crate::cpu::{Registers, self};
-use crate::mem::{get_executable_memory_slice, memory_read_byte, memory_write_byte, memory_write_word, MemoryAreas};
+use crate::mem::{can_dynarec, get_executable_memory_slice, memory_read_byte, memory_write_byte, memory_write_word, MemoryAreas};
 
 pub fn run_code_block(registers: &mut Registers, mem: *mut MemoryAreas) -> u8 {
   let mut status = cpu::STATUS_NORMAL;
@@ -16,6 +16,11 @@ pub fn run_code_block(registers: &mut Registers, mem: *mut MemoryAreas) -> u8 {
         // Keep block boundaries identical to the translator's: a block never
         // runs on from the fixed ROM bank into the switchable one.
         if (block_start < 0x4000) != (registers.ip < 0x4000) {
+          break;
+        }
+        // ...and a block that the translator would handle stops where the
+        // translator stops, at the untranslated tail of a bank.
+        if can_dynarec(block_start as usize) && !can_dynarec(registers.ip as usize) {
           break;
         }
       },
